@@ -34,6 +34,7 @@ RULE = (
     "InterfaceError may escape. A case is non-trivial when it uses a non-literal spelling, must be refused, or is a "
     "consistency pair; all cases are distinct by construction."
     "18 undocumented code points x {decimal, hex, \\u, \\U} must be read alike (all taken as the same character or all refused); an encoding name is refused before and accepted after a codec of that name is registered (fresh process)."
+    "A value outside a character property's documented set stays refused when a sibling property holds that value."
 )
 ASSUMPTIONS = [
     "property names are given to set_property in lower case (its documented calling convention); Cid.read gets any case",
